@@ -59,6 +59,21 @@ pub fn sigma_full() -> Vec<&'static str> {
     v
 }
 
+/// every element name the HTML standard's tree-construction rules mention by name, plus a few that it
+/// does not (ordinary elements); used by job J5 so that a slip in any tag set is within reach even when
+/// the name is not a class representative of Sigma_tree
+pub const ALL_NAMES: &[&str] = &[
+    "a", "abbr", "address", "applet", "area", "article", "aside", "b", "base", "basefont", "bgsound", "big", "blockquote", "body", "br",
+    "button", "caption", "center", "code", "col", "colgroup", "dd", "details", "dialog", "dir", "div", "dl", "dt", "em", "embed", "fieldset",
+    "figcaption", "figure", "font", "footer", "form", "frame", "frameset", "h1", "h2", "h3", "h4", "h5", "h6", "head", "header", "hgroup",
+    "hr", "html", "i", "iframe", "image", "img", "input", "keygen", "li", "link", "listing", "main", "marquee", "math", "menu", "meta", "nav",
+    "nobr", "noembed", "noframes", "noscript", "object", "ol", "optgroup", "option", "p", "param", "plaintext", "pre", "rb", "rp", "rt", "rtc",
+    "ruby", "s", "script", "search", "section", "select", "selectedcontent", "small", "source", "span", "strike", "strong", "style", "sub",
+    "summary", "sup", "svg", "table", "tbody", "td", "template", "textarea", "tfoot", "th", "thead", "title", "tr", "track", "tt", "u", "ul",
+    "var", "wbr", "xmp", "mi", "mo", "mn", "ms", "mtext", "annotation-xml", "mglyph", "malignmark", "foreignobject", "desc", "g", "datalist",
+    "label", "output", "video", "x-y",
+];
+
 /// families with no spec oracle available offline (excluded from C02 only)
 pub fn is_c02_excluded(lex: &str) -> bool {
     ["select", "option", "optgroup", "selectedcontent", "hr", "keygen", "isindex", "search", "dialog", "datalist"]
@@ -399,6 +414,31 @@ pub fn jobs(tier: Tier, full: bool) -> Vec<Job> {
         let depth = tier.pick(5, 7);
         let s: Vec<&'static str> = if full { s } else { s.into_iter().filter(|l| !is_c02_excluded(l)).collect() };
         v.push(Job { name: format!("J2/{n}"), cfg: TreeCfg::default(), prefix: vec![], sigma: s, depth });
+    }
+    // J5: every named element as start and end tag after every insertion-mode witness, followed by probes
+    {
+        let mut names: Vec<&'static str> = vec![];
+        for n in ALL_NAMES {
+            let st: &'static str = Box::leak(format!("<{n}>").into_boxed_str());
+            let en: &'static str = Box::leak(format!("</{n}>").into_boxed_str());
+            if full || !(is_c02_excluded(st) || is_c02_excluded(en)) {
+                names.push(st);
+                names.push(en);
+            }
+        }
+        let mut sig5 = names.clone();
+        for probe in ["x", "<p>", "<td>", "<li>", "</p>", "<b>", " "] {
+            sig5.push(probe);
+        }
+        let mut ws = mode_witnesses();
+        ws.push(vec![]);
+        for w in ws {
+            if !full && w.iter().any(|l| is_c02_excluded(l)) {
+                continue;
+            }
+            v.push(Job { name: format!("J5/{}", w.concat()), cfg: TreeCfg::default(), prefix: w, sigma: sig5.clone(), depth: 2 });
+        }
+        v.push(Job { name: "J5n/".into(), cfg: TreeCfg { scripting: false, ..Default::default() }, prefix: vec![], sigma: sig5.clone(), depth: 2 });
     }
     for f in fragment_contexts() {
         if !full && (f.local == "select" || f.local == "option") {
